@@ -695,7 +695,7 @@ func init() {
 func TestC15(t *testing.T) {
 	w := explore.NewWorker("C15")
 	defer w.Finish()
-	w.SetRule("(a) Msg values from a bounded grammar (8 query methods, response, 5 error shapes; every alternative of every MsgArgs/Return/top-level field, all pairs of alternatives of two fields, full presence product over pointer/omitempty fields) through encode->decode->deep-equal (IPs by value, nil==empty) and re-encode; (b) every prefix truncation and every single-byte substitution by one of 10 structural bytes of a 42-datagram corpus, plus the encodings of (a): if it decodes, re-encoding must succeed and be a fixpoint; (c) every compact list decoder (binary and bencoded form) on every length 0..3*size+1 x 3 fill patterns: accepted iff length is a multiple of the entry size, re-encodes identically; every other exported Unmarshal* of krpc on lengths 0..80; nodes-file round trip. Any panic is a violation. distinct_nontrivial = distinct inputs that passed the decode gate (b) or were evaluated (a, c)")
+	w.SetRule("(a) Msg values from a bounded grammar (8 query methods, response, 5 error shapes; every alternative of every MsgArgs/Return/top-level field, all pairs of alternatives of two fields, full presence product over pointer/omitempty fields) through encode->decode->deep-equal (IPs by value, nil==empty) and re-encode; (b) every prefix truncation and every single-byte substitution by one of 10 structural bytes of a 42-datagram corpus, every one-byte deletion and structural-byte insertion (thorough: every byte value at every position and the complete two-substitution neighbourhood of the datagrams up to 160 bytes), plus the encodings of (a): if it decodes, re-encoding must succeed and be a fixpoint; (c) every compact list decoder (binary and bencoded form) on every length 0..3*size+1 x 3 fill patterns: accepted iff length is a multiple of the entry size, re-encodes identically; every other exported Unmarshal* of krpc on lengths 0..80; nodes-file round trip. Any panic is a violation. distinct_nontrivial = distinct inputs that passed the decode gate (b) or were evaluated (a, c)")
 	idx := 0
 	// (a) grammar, sharded by ordinal
 	{
@@ -770,6 +770,54 @@ func TestC15(t *testing.T) {
 				m := append([]byte(nil), d...)
 				m[pos] = s
 				try(m)
+			}
+		}
+		// one-byte deletions and insertions of a structural byte
+		for pos := 0; pos < len(d); pos++ {
+			try(append(append([]byte(nil), d[:pos]...), d[pos+1:]...))
+		}
+		for pos := 0; pos <= len(d); pos++ {
+			for _, s := range c15Subst {
+				m := append(append(append([]byte(nil), d[:pos]...), s), d[pos:]...)
+				try(m)
+			}
+		}
+		if w.Thorough() {
+			// every byte value at every position
+			for pos := 0; pos < len(d); pos++ {
+				for v := 0; v < 256; v++ {
+					if d[pos] == byte(v) {
+						continue
+					}
+					m := append([]byte(nil), d...)
+					m[pos] = byte(v)
+					try(m)
+				}
+			}
+			// the two-substitution neighbourhood (structural bytes) of datagrams up to 160 bytes
+			if len(d) <= 160 {
+				m := make([]byte, len(d))
+				for p1 := 0; p1 < len(d); p1++ {
+					for _, s1 := range c15Subst {
+						if d[p1] == s1 {
+							continue
+						}
+						for p2 := p1 + 1; p2 < len(d); p2++ {
+							for _, s2 := range c15Subst {
+								if d[p2] == s2 {
+									continue
+								}
+								copy(m, d)
+								m[p1], m[p2] = s1, s2
+								try(m)
+							}
+						}
+					}
+					if w.OutOfTime() {
+						w.Cap(fmt.Sprintf("time budget hit inside the two-edit neighbourhood of corpus datagram %d", ci))
+						break
+					}
+				}
 			}
 		}
 		if ci == 0 {
